@@ -26,6 +26,8 @@
   Helper lemmas: `BklProofs/Lemmas/Cycles.lean`.
 -/
 import BklProofs.Lemmas.Cycles
+import BklProofs.Lemmas.C08Cycles
+import BklProofs.Lemmas.C08Errors
 set_option linter.unusedVariables false
 namespace Bkl
 
@@ -521,5 +523,526 @@ theorem C08_total :
     (∀ fs cfg fuel p c ids chain, ∃ r, loadFileAndParents fs cfg fuel p c ids chain = r) :=
   ⟨fun _ _ _ _ _ => ⟨_, rfl⟩, fun _ _ _ _ _ => ⟨_, rfl⟩, fun _ _ => ⟨_, rfl⟩,
    fun _ _ => ⟨_, rfl⟩, fun _ _ _ _ _ _ _ => ⟨_, rfl⟩⟩
+
+end Bkl
+
+/-! # Round 2: cycles of arbitrary length, mixed forms, negative `$repeat` counts, error classes
+
+  Helper lemmas: `BklProofs/Lemmas/C08Cycles.lean`, `BklProofs/Lemmas/C08Errors.lean`.
+
+  * `C08_mixed_cycle` (+ `_entry`, `_embedded`, `_list`): every closed system of forwarding
+    references — any mixture of `"$merge:k"`, `"$replace:k"`, `{$replace: k}` maps and
+    `[…, {$replace: k}, …]` lists, cycles of any length, lassos — is `circularRef` for every fuel,
+    also under `processDoc` / `outputDocument`; embedded in a larger document it still makes
+    the document an error.  `C08_map_replace_cycle_n`, `C08_list_replace_cycle_n` are the
+    n-cycles of one form.
+  * the MAP form of a `$merge` n-cycle `kᵢ: {$merge: kᵢ₊₁, …contents}`: with int-valued contents
+    (at least one host non-empty) it IS an error for every fuel — `uselessOverride` as soon as
+    the fuel is at least n + 1, `circularRef` or `uselessOverride` below
+    (`C08_map_merge_cycle_partial`); without contents it is NOT an error: the value is
+    `{kᵢ: {}}` for every n (`C08_map_merge_cycle_empty_value`, `C08_map_merge_cycle_3_false`).
+  * `$repeat: n` with `n ≤ 0` yields zero copies and no error at document level and nested
+    (`C08_repeat_negative`, `…_list_doc`, `…_named`, `…_list_entry`, `…_map_value`); a
+    non-integer count is an error (`C08_repeat_nonint_is_error`).
+  * `outputDocuments` returns a value or one of 15 error classes (`C08_evaluation_total_status`,
+    `C08_error_is_reported`, `C08_never_produced`; per stage: `C08_error_classes_by_stage`).
+    `marshal` is never produced; `unknownFormat` IS (`C08_unknownFormat_is_produced`).
+-/
+namespace Bkl
+
+/-! ## 9. forwarding cycles of arbitrary length, any mixture of forms -/
+
+/-- "Every key of `S` forwards to another key of `S`" (`cy_FwdClosed kvs S`: the value under
+    each `k ∈ S` is one of the forwarding forms `cy_Fwd` and refers to a simple key of `S`), and
+    every key of the document is in `S`.  Then the document is `circularRef` for every fuel, and
+    `processDoc` / `outputDocument` report `circularRef`. -/
+theorem C08_mixed_cycle {kvs : Fields} {S : String → Prop} (H : cy_FwdClosed kvs S)
+    (hall : ∀ p ∈ kvs, S p.1) (hne : kvs ≠ [])
+    (h0 : fget kvs "$merge" = none) (h1 : fget kvs "$replace" = none)
+    (fuel : Nat) (docs : List Val) (env : Vars) :
+    process1 fuel docs (.map kvs) (some []) (.map kvs) = .error .circularRef ∧
+    processDoc docs env (.map kvs) = .error .circularRef ∧
+    outputDocument docs env (.map kvs) = .error .circularRef :=
+  ⟨cy_fwdClosed_doc_error H hall hne h0 h1 fuel docs (some []),
+   cy_processDoc_error env (cy_fwdClosed_doc_error H hall hne h0 h1 depthLimit docs (some []))⟩
+
+/-- … each member of the closed system is `circularRef` wherever it is evaluated, whatever the
+    other keys of the document hold … -/
+theorem C08_mixed_cycle_entry {kvs : Fields} {S : String → Prop} (H : cy_FwdClosed kvs S)
+    (fuel : Nat) (docs : List Val) (loc : Loc) (k : String) (v : Val) (hk : S k)
+    (hv : fget kvs k = some v) :
+    process1 fuel docs (.map kvs) loc v = .error .circularRef :=
+  cy_fwdClosed_entry_error H fuel docs loc k v hk hv
+
+/-- … and a document that merely CONTAINS a closed system among its top-level keys is an error
+    for every fuel (the keys before the first member are evaluated first and may fail with an
+    error of their own; their in-place expansions cannot touch the members). -/
+theorem C08_mixed_cycle_embedded {kvs : Fields} {S : String → Prop} (H : cy_FwdClosed kvs S)
+    (k0 : String) (hk0 : S k0)
+    (h0 : fget kvs "$merge" = none) (h1 : fget kvs "$replace" = none)
+    (fuel : Nat) (docs : List Val) (env : Vars) :
+    (∃ e, process1 fuel docs (.map kvs) (some []) (.map kvs) = .error e) ∧
+    (∃ e, processDoc docs env (.map kvs) = .error e) := by
+  refine ⟨cy_fwdClosed_embedded_error H k0 hk0 h0 h1 fuel docs, ?_⟩
+  obtain ⟨e, he⟩ := cy_fwdClosed_embedded_error H k0 hk0 h0 h1 depthLimit docs
+  exact ⟨e, (cy_processDoc_error env he).1⟩
+
+-- non-vacuity: the lasso `a → b → c → d → b` plus an unrelated key `A`, all four forms
+example : cy_FwdClosed
+    [("A", .int 1), ("a", .str "$merge:b"), ("b", .map [("$replace", .str "c")]),
+     ("c", .list [.int 7, .map [("$replace", .str "d")]]), ("d", .str "$replace:b")]
+    (· ∈ ["a", "b", "c", "d"]) := by
+  intro k hk
+  simp only [List.mem_cons, List.not_mem_nil, or_false] at hk
+  rcases hk with rfl | rfl | rfl | rfl
+  · exact ⟨_, "b", by decide, .strMerge "b", simpleKey_b, by decide⟩
+  · exact ⟨_, "c", by decide, cy_fwd_map1 "c", simpleKey_c, by decide⟩
+  · exact ⟨_, "d", by decide,
+      .listReplace [.int 7] [] "d" (by intro x hx; simp at hx; subst hx; rfl), simpleKey_d,
+      by decide⟩
+  · exact ⟨_, "b", by decide, .strReplace "b", simpleKey_b, by decide⟩
+
+/-- The n-cycle `k₀ ↦ f k₁, …, kₙ₋₁ ↦ f k₀` in which every link `f k` is ANY forwarding form
+    referring to `k` (the forms may differ from key to key), for every n ≥ 1. -/
+theorem C08_mixed_cycle_list (f : String → Val) (ks : List String) (hne : ks ≠ [])
+    (hk : ∀ k ∈ ks, SimpleKey k) (hf : ∀ k ∈ ks, cy_Fwd (f k) k)
+    (hm : "$merge" ∉ ks) (hr : "$replace" ∉ ks) (fuel : Nat) (docs : List Val) (env : Vars) :
+    process1 fuel docs (.map (cycleFields f ks)) (some []) (.map (cycleFields f ks)) =
+      .error .circularRef ∧
+    processDoc docs env (.map (cycleFields f ks)) = .error .circularRef ∧
+    outputDocument docs env (.map (cycleFields f ks)) = .error .circularRef :=
+  C08_mixed_cycle (cy_cycleFields_fwdClosed f ks hk hf) (cy_cycleFields_keys f ks)
+    (cycleFields_ne_nil f hne) (cycleFields_fget_none f ks hm) (cycleFields_fget_none f ks hr)
+    fuel docs env
+
+/-- `a1: {$replace: a2}, …, an: {$replace: a1}` (map form) is `circularRef`, for every n ≥ 1,
+    all simple keys and every fuel. -/
+theorem C08_map_replace_cycle_n (ks : List String) (hne : ks ≠ [])
+    (hk : ∀ k ∈ ks, SimpleKey k) (hm : "$merge" ∉ ks) (hr : "$replace" ∉ ks)
+    (fuel : Nat) (docs : List Val) (env : Vars) :
+    process1 fuel docs (.map (cycleFields (fun k => .map [("$replace", .str k)]) ks)) (some [])
+      (.map (cycleFields (fun k => .map [("$replace", .str k)]) ks)) = .error .circularRef ∧
+    processDoc docs env (.map (cycleFields (fun k => .map [("$replace", .str k)]) ks)) =
+      .error .circularRef ∧
+    outputDocument docs env (.map (cycleFields (fun k => .map [("$replace", .str k)]) ks)) =
+      .error .circularRef :=
+  C08_mixed_cycle_list _ ks hne hk (fun k _ => cy_fwd_map1 k) hm hr fuel docs env
+
+/-- the same for the list-entry form `a1: [{$replace: a2}], …, an: [{$replace: a1}]` -/
+theorem C08_list_replace_cycle_n (ks : List String) (hne : ks ≠ [])
+    (hk : ∀ k ∈ ks, SimpleKey k) (hm : "$merge" ∉ ks) (hr : "$replace" ∉ ks)
+    (fuel : Nat) (docs : List Val) (env : Vars) :
+    process1 fuel docs (.map (cycleFields (fun k => .list [.map [("$replace", .str k)]]) ks))
+      (some []) (.map (cycleFields (fun k => .list [.map [("$replace", .str k)]]) ks)) =
+      .error .circularRef ∧
+    processDoc docs env (.map (cycleFields (fun k => .list [.map [("$replace", .str k)]]) ks)) =
+      .error .circularRef ∧
+    outputDocument docs env
+      (.map (cycleFields (fun k => .list [.map [("$replace", .str k)]]) ks)) =
+      .error .circularRef :=
+  C08_mixed_cycle_list _ ks hne hk (fun k _ => cy_fwd_list1 k) hm hr fuel docs env
+
+-- non-vacuity: the 4-cycle of `$replace` maps
+example : cycleFields (fun k => .map [("$replace", .str k)]) ["a", "b", "c", "d"] =
+    [("a", .map [("$replace", .str "b")]), ("b", .map [("$replace", .str "c")]),
+     ("c", .map [("$replace", .str "d")]), ("d", .map [("$replace", .str "a")])] := by decide
+example : (∀ k ∈ ["a", "b", "c", "d"], SimpleKey k) ∧
+    "$merge" ∉ ["a", "b", "c", "d"] ∧ "$replace" ∉ ["a", "b", "c", "d"] := by
+  refine ⟨?_, by decide, by decide⟩
+  intro k hk
+  simp only [List.mem_cons, List.not_mem_nil, or_false] at hk
+  rcases hk with rfl | rfl | rfl | rfl
+  exacts [simpleKey_a, simpleKey_b, simpleKey_c, simpleKey_d]
+
+/-- the 3-cycle of `$replace` maps as a concrete document -/
+theorem C08_map_replace_cycle_3 (fuel : Nat) (docs : List Val) :
+    process1 fuel docs
+      (.map [("a", .map [("$replace", .str "b")]), ("b", .map [("$replace", .str "c")]),
+        ("c", .map [("$replace", .str "a")])]) (some [])
+      (.map [("a", .map [("$replace", .str "b")]), ("b", .map [("$replace", .str "c")]),
+        ("c", .map [("$replace", .str "a")])]) = .error .circularRef := by
+  have h := (C08_map_replace_cycle_n ["a", "b", "c"] (by decide)
+    (by
+      intro k hk
+      simp only [List.mem_cons, List.not_mem_nil, or_false] at hk
+      rcases hk with rfl | rfl | rfl
+      exacts [simpleKey_a, simpleKey_b, simpleKey_c])
+    (by decide) (by decide) fuel docs []).1
+  have e : cycleFields (fun k => .map [("$replace", .str k)]) ["a", "b", "c"] =
+      [("a", .map [("$replace", .str "b")]), ("b", .map [("$replace", .str "c")]),
+       ("c", .map [("$replace", .str "a")])] := by decide
+  rw [e] at h; exact h
+
+/-! ## 10. the MAP form of a `$merge` n-cycle -/
+
+/-- `k₀: {$merge: k₁, …c k₀}, …, kₙ₋₁: {$merge: k₀, …c kₙ₋₁}` (`cy_mergeCycle c ks`; distinct
+    simple keys) where the contents `c k` are int-valued (any number of keys other than `$merge`)
+    and at least one host has contents.  The first host collects the contents of all hosts on
+    its way round the cycle and is finally merged into itself: an error for EVERY fuel —
+    `uselessOverride` as soon as the fuel is at least n + 1, `circularRef` or (when two hosts
+    carry the same key with the same value) `uselessOverride` below.  The hypothesis excludes
+    exactly the content-free cycles, which are not errors (`C08_map_merge_cycle_empty_value`). -/
+theorem C08_map_merge_cycle_partial (docs : List Val) (c : String → Fields) (k0 : String)
+    (tl : List String) (hnd : (k0 :: tl).Nodup)
+    (hk : ∀ k ∈ k0 :: tl, SimpleKey k ∧ k ≠ "$delete" ∧ cy_IntContent (c k))
+    (hm : "$merge" ∉ k0 :: tl) (hr : "$replace" ∉ k0 :: tl)
+    (hne : ∃ k ∈ k0 :: tl, c k ≠ []) (fuel : Nat) :
+    ∃ e, process1 fuel docs (.map (cy_mergeCycle c (k0 :: tl))) (some [])
+        (.map (cy_mergeCycle c (k0 :: tl))) = .error e ∧
+      (e = .circularRef ∨ e = .uselessOverride) ∧
+      ((k0 :: tl).length + 1 ≤ fuel → e = .uselessOverride) :=
+  cy_content_cycle_error docs c k0 tl hnd hk hm hr hne fuel
+
+/-- hence `processDoc` reports an error; `uselessOverride` for every cycle shorter than the
+    depth limit -/
+theorem C08_map_merge_cycle_partial_doc (docs : List Val) (env : Vars) (c : String → Fields)
+    (k0 : String) (tl : List String) (hnd : (k0 :: tl).Nodup)
+    (hk : ∀ k ∈ k0 :: tl, SimpleKey k ∧ k ≠ "$delete" ∧ cy_IntContent (c k))
+    (hm : "$merge" ∉ k0 :: tl) (hr : "$replace" ∉ k0 :: tl)
+    (hne : ∃ k ∈ k0 :: tl, c k ≠ []) :
+    ∃ e, processDoc docs env (.map (cy_mergeCycle c (k0 :: tl))) = .error e ∧
+      (e = .circularRef ∨ e = .uselessOverride) ∧
+      ((k0 :: tl).length < depthLimit → e = .uselessOverride) := by
+  obtain ⟨e, he, h1, h2⟩ := cy_content_cycle_error docs c k0 tl hnd hk hm hr hne depthLimit
+  exact ⟨e, (cy_processDoc_error env he).1, h1, fun hl => h2 (by omega)⟩
+
+/-- the shape of the document -/
+theorem C08_map_merge_cycle_shape (c : String → Fields) (ks : List String) :
+    cy_mergeCycle c ks =
+      (ks.zip (rot1 ks)).map fun p => (p.1, .map (("$merge", .str p.2) :: c p.1)) :=
+  cy_mergeCycle_eq_zip c ks
+
+-- non-vacuity: `a: {$merge: b, x: 1}, b: {$merge: c}, c: {$merge: a, y: 3, z: 4}`
+example : cy_mergeCycle
+    (fun k => if k = "a" then [("x", .int 1)] else if k = "c" then [("y", .int 3), ("z", .int 4)]
+      else []) ["a", "b", "c"] =
+    [("a", .map [("$merge", .str "b"), ("x", .int 1)]), ("b", .map [("$merge", .str "c")]),
+     ("c", .map [("$merge", .str "a"), ("y", .int 3), ("z", .int 4)])] := by decide
+example : (["a", "b", "c"] : List String).Nodup ∧
+    (∀ k ∈ ["a", "b", "c"], SimpleKey k ∧ k ≠ "$delete" ∧ cy_IntContent
+      ((fun k => if k = "a" then [("x", .int 1)]
+        else if k = "c" then [("y", .int 3), ("z", .int 4)] else []) k)) ∧
+    "$merge" ∉ ["a", "b", "c"] ∧ "$replace" ∉ ["a", "b", "c"] ∧
+    (∃ k ∈ ["a", "b", "c"], (fun k => if k = "a" then [("x", Val.int 1)]
+        else if k = "c" then [("y", .int 3), ("z", .int 4)] else []) k ≠ []) := by
+  refine ⟨by decide, ?_, by decide, by decide, ⟨"a", by decide, by decide⟩⟩
+  intro k hk
+  simp only [List.mem_cons, List.not_mem_nil, or_false] at hk
+  rcases hk with rfl | rfl | rfl
+  · refine ⟨simpleKey_a, by decide, ?_⟩
+    intro p hp
+    simp at hp
+    subst hp
+    exact ⟨by decide, 1, rfl⟩
+  · refine ⟨simpleKey_b, by decide, ?_⟩
+    intro p hp
+    simp at hp
+  · refine ⟨simpleKey_c, by decide, ?_⟩
+    intro p hp
+    simp at hp
+    rcases hp with rfl | rfl
+    · exact ⟨by decide, 3, rfl⟩
+    · exact ⟨by decide, 4, rfl⟩
+
+/-- Exact behaviour WITHOUT contents, for every n ≥ 1: the cycle `kᵢ: {$merge: kᵢ₊₁}` evaluates
+    (fuel ≥ n + 2) to `{kᵢ: {}}` — every host loses its `$merge` key, walks round the cycle and
+    finally receives the empty content of a host that was emptied before (or of itself). -/
+theorem C08_map_merge_cycle_empty_value (docs : List Val) (k0 : String) (tl : List String)
+    (hnd : (k0 :: tl).Nodup)
+    (hk : ∀ k ∈ k0 :: tl, SimpleKey k ∧ k ≠ "$delete" ∧ refStr k = false)
+    (hm : "$merge" ∉ k0 :: tl) (hr : "$replace" ∉ k0 :: tl) (fuel : Nat) :
+    process1 (fuel + (k0 :: tl).length + 2) docs
+        (.map (cy_mergeCycle (fun _ => []) (k0 :: tl))) (some [])
+        (.map (cy_mergeCycle (fun _ => []) (k0 :: tl))) =
+      .ok (.map (cy_emptied [] (k0 :: tl)),
+           .map (cy_emptied (cy_mergeCycle (fun _ => []) (k0 :: tl)) (k0 :: tl))) :=
+  cy_empty_cycle_value docs k0 tl hnd hk hm hr fuel
+
+/-- for increasing keys the value is literally `{k₀: {}, k₁: {}, …}` -/
+theorem C08_map_merge_cycle_empty_value_sorted (ks : List String) (h : ks.Pairwise (· < ·)) :
+    cy_emptied [] ks = ks.map fun k => (k, Val.map []) :=
+  cy_emptied_sorted ks h
+
+/-- so the statement "a map-form `$merge` n-cycle is an error for every fuel" is FALSE for
+    every n ≥ 1 … -/
+theorem C08_map_merge_cycle_empty_false (docs : List Val) (k0 : String) (tl : List String)
+    (hnd : (k0 :: tl).Nodup)
+    (hk : ∀ k ∈ k0 :: tl, SimpleKey k ∧ k ≠ "$delete" ∧ refStr k = false)
+    (hm : "$merge" ∉ k0 :: tl) (hr : "$replace" ∉ k0 :: tl) :
+    ¬ ∀ fuel, ∃ e, process1 fuel docs (.map (cy_mergeCycle (fun _ => []) (k0 :: tl))) (some [])
+      (.map (cy_mergeCycle (fun _ => []) (k0 :: tl))) = .error e := by
+  intro h
+  obtain ⟨e, he⟩ := h (0 + (k0 :: tl).length + 2)
+  rw [cy_empty_cycle_value docs k0 tl hnd hk hm hr 0] at he
+  cases he
+
+/-- … concretely for n = 3, `cy_mapCycle3 = {a: {$merge: b}, b: {$merge: c}, c: {$merge: a}}`:
+    the value is `{a: {}, b: {}, c: {}}` (fuel ≥ 5) … -/
+theorem C08_map_merge_cycle_3_value (fuel : Nat) (docs : List Val) :
+    ∃ root', process1 (fuel + 5) docs cy_mapCycle3 (some []) cy_mapCycle3 =
+      .ok (.map [("a", .map []), ("b", .map []), ("c", .map [])], root') := by
+  have h := cy_empty_cycle_value docs "a" ["b", "c"] (by decide)
+    (by
+      intro k hk
+      simp only [List.mem_cons, List.not_mem_nil, or_false] at hk
+      rcases hk with rfl | rfl | rfl
+      · exact ⟨simpleKey_a, by decide, by decide⟩
+      · exact ⟨simpleKey_b, by decide, by decide⟩
+      · exact ⟨simpleKey_c, by decide, by decide⟩)
+    (by decide) (by decide) fuel
+  have e1 : Val.map (cy_mergeCycle (fun _ => []) ["a", "b", "c"]) = cy_mapCycle3 := by decide
+  have e2 : cy_emptied [] ["a", "b", "c"] = [("a", .map []), ("b", .map []), ("c", .map [])] := by
+    decide
+  rw [e1, e2] at h
+  exact ⟨_, h⟩
+
+/-- … not an error. -/
+theorem C08_map_merge_cycle_3_false :
+    ¬ ∀ fuel, ∃ e, process1 fuel [] cy_mapCycle3 (some []) cy_mapCycle3 = .error e := by
+  intro h
+  obtain ⟨e, he⟩ := h 5
+  obtain ⟨r, hr⟩ := C08_map_merge_cycle_3_value 0 []
+  rw [hr] at he
+  cases he
+
+/-- with contents the 3-cycle is reported, at the depth limit as `uselessOverride` -/
+theorem C08_map_merge_cycle_3_with_keys (docs : List Val) (env : Vars) :
+    processDoc docs env
+      (.map [("a", .map [("$merge", .str "b"), ("x", .int 1)]), ("b", .map [("$merge", .str "c")]),
+        ("c", .map [("$merge", .str "a"), ("y", .int 3), ("z", .int 4)])]) =
+      .error .uselessOverride := by
+  obtain ⟨e, he, _, h2⟩ := C08_map_merge_cycle_partial_doc docs env
+    (fun k => if k = "a" then [("x", .int 1)] else if k = "c" then [("y", .int 3), ("z", .int 4)]
+      else []) "a" ["b", "c"] (by decide)
+    (by
+      intro k hk
+      simp only [List.mem_cons, List.not_mem_nil, or_false] at hk
+      rcases hk with rfl | rfl | rfl
+      · refine ⟨simpleKey_a, by decide, ?_⟩
+        intro p hp
+        simp at hp
+        subst hp
+        exact ⟨by decide, 1, rfl⟩
+      · refine ⟨simpleKey_b, by decide, ?_⟩
+        intro p hp
+        simp at hp
+      · refine ⟨simpleKey_c, by decide, ?_⟩
+        intro p hp
+        simp at hp
+        rcases hp with rfl | rfl
+        · exact ⟨by decide, 3, rfl⟩
+        · exact ⟨by decide, 4, rfl⟩)
+    (by decide) (by decide) ⟨"a", by decide, by decide⟩
+  have e1 : cy_mergeCycle
+      (fun k => if k = "a" then [("x", .int 1)]
+        else if k = "c" then [("y", .int 3), ("z", .int 4)] else []) ["a", "b", "c"] =
+      [("a", .map [("$merge", .str "b"), ("x", .int 1)]), ("b", .map [("$merge", .str "c")]),
+       ("c", .map [("$merge", .str "a"), ("y", .int 3), ("z", .int 4)])] := by decide
+  rw [e1] at he
+  rw [he, h2 (by decide)]
+
+/-! ## 11. `$repeat` with a count ≤ 0: zero copies, no error -/
+
+/-- Document level, map document.  If phase 3 turns the merged document into a map with
+    `$repeat: n`, `n ≤ 0` (in particular every negative count), no document is generated and
+    nothing is reported: `processDoc` and `outputDocument` return the empty list.  (`C12_doc_int`:
+    the count is `n.toNat`.) -/
+theorem C08_repeat_negative (docs : List Val) (env : Vars) (data : Val) (kvs : Fields)
+    (rt : Val) (n : Int)
+    (h1 : process1 depthLimit docs data (some []) data = .ok (.map kvs, rt))
+    (hr : fget kvs "$repeat" = some (.int n)) (hn : n ≤ 0) :
+    processDoc docs env data = .ok [] ∧ outputDocument docs env data = .ok [] := by
+  have h : processDoc docs env data = .ok [] := by
+    rw [C12_doc_int_order docs env data kvs rt n h1 hr, cy_range_nonpos hn]; rfl
+  exact ⟨h, by unfold outputDocument; rw [h]; rfl⟩
+
+/-- the `process1` hypothesis discharged for reference-free documents (`C12_doc_int_order_closed`) -/
+theorem C08_repeat_negative_closed (docs : List Val) (env : Vars) (kvs : Fields) (n : Int)
+    (hp : allStr p1OK (.map kvs) = true) (hw : Val.wfB (.map kvs) = true)
+    (hd : depth (.map kvs) < depthLimit) (hr : fget kvs "$repeat" = some (.int n)) (hn : n ≤ 0) :
+    processDoc docs env (.map kvs) = .ok [] ∧ outputDocument docs env (.map kvs) = .ok [] :=
+  C08_repeat_negative docs env (.map kvs) (dropNullsFields kvs) (.map kvs) n
+    (process1_p1 depthLimit docs (.map kvs) (some []) (.map kvs) hp hw hd)
+    (fget_dropNullsFields_int hr) hn
+
+/-- `{$repeat: -3, a: 1}`: no output, no error -/
+theorem C08_repeat_negative_example (docs : List Val) (env : Vars) :
+    outputDocument docs env (.map [("$repeat", .int (-3)), ("a", .int 1)]) = .ok [] :=
+  (C08_repeat_negative_closed docs env _ (-3) (by decide) (by decide) (by decide) (by decide)
+    (by decide)).2
+
+/-- Document level, list document `[{$repeat: n}, …]`. -/
+theorem C08_repeat_negative_list_doc (docs : List Val) (env : Vars) (data : Val)
+    (xs rest : List Val) (rt : Val) (n : Int)
+    (h1 : process1 depthLimit docs data (some []) data = .ok (.list xs, rt))
+    (hp : popListMapValue xs "$repeat" = .ok (.int n, rest)) (hn : n ≤ 0) :
+    processDoc docs env data = .ok [] ∧ outputDocument docs env data = .ok [] := by
+  have h : processDoc docs env data = .ok [] := by
+    unfold processDoc
+    rw [h1]
+    simp only [ok_bind, repeatDoc, hp, Val.isNull, Bool.not_false, if_true]
+    rw [C12_doc_int, cy_range_nonpos hn]
+    rfl
+  exact ⟨h, by unfold outputDocument; rw [h]; rfl⟩
+
+example : popListMapValue [.map [("$repeat", .int (-1))], .int 5] "$repeat" =
+    .ok (.int (-1), [.int 5]) := by
+  simp [popListMapValue, fget, Val.isNull, R_pure]
+  rfl
+
+/-- Document level, named counts `$repeat: {i: …, j: …}`: one count ≤ 0 (all counts integers)
+    empties the cartesian product. -/
+theorem C08_repeat_negative_named (data : Val) (ec : Vars) (rs : Fields)
+    (h : ∀ kv ∈ rs, ∃ n, kv.2 = Val.int n) (hneg : ∃ kv ∈ rs, ∃ n, kv.2 = Val.int n ∧ n ≤ 0) :
+    repeatGen data ec (.map rs) = .ok [] := by
+  obtain ⟨pairs, hp, hl⟩ := C12_doc_named_length data ec rs h
+  have : (rs.map fun kv => countOf kv.2).prod = 0 := by
+    apply cy_prod_zero
+    obtain ⟨kv, hkv, n, hn, hn0⟩ := hneg
+    refine ⟨countOf kv.2, List.mem_map_of_mem hkv, ?_⟩
+    rw [hn]
+    show n.toNat = 0
+    omega
+  rw [this] at hl
+  rw [hp, List.eq_nil_of_length_eq_zero hl]
+
+example : (∀ kv ∈ ([("i", .int 2), ("j", .int (-1))] : Fields), ∃ n, kv.2 = Val.int n) ∧
+    ∃ kv ∈ ([("i", .int 2), ("j", .int (-1))] : Fields), ∃ n, kv.2 = Val.int n ∧ n ≤ 0 := by
+  refine ⟨?_, ("j", .int (-1)), by simp, -1, rfl, by decide⟩
+  intro kv hkv
+  simp only [List.mem_cons, List.not_mem_nil, or_false] at hkv
+  rcases hkv with rfl | rfl <;> exact ⟨_, rfl⟩
+
+/-- Nested, list entry: `{$repeat: n, …}` with `n ≤ 0` anywhere in a list contributes nothing —
+    the list evaluates exactly as without the entry (for every fuel; in particular the entry
+    itself causes no error). -/
+theorem C08_repeat_negative_list_entry (fuel : Nat) (docs : List Val) (root : Val) (ec : Vars)
+    (pre post : List Val) (m : Fields) (n : Int)
+    (hr : fget m "$repeat" = some (.int n)) (hn : n ≤ 0) :
+    process2 fuel docs root ec (.list (pre ++ .map m :: post)) =
+      process2 fuel docs root ec (.list (pre ++ post)) :=
+  cy_process2_list_drop docs root ec m n hr hn fuel pre post
+
+/-- Nested, map value: `k: {$repeat: n, …}` with `n ≤ 0` anywhere in a map contributes nothing. -/
+theorem C08_repeat_negative_map_value (fuel : Nat) (docs : List Val) (root : Val) (ec : Vars)
+    (pre post : Fields) (k : String) (m : Fields) (n : Int)
+    (hr : fget m "$repeat" = some (.int n)) (hn : n ≤ 0) :
+    process2 fuel docs root ec (.map (pre ++ (k, .map m) :: post)) =
+      process2 fuel docs root ec (.map (pre ++ post)) := by
+  cases fuel with
+  | zero => rw [cy_process2_zero, cy_process2_zero]
+  | succ f => exact cy_process2_map_drop f docs root ec pre post k m n hr hn
+
+/-- alone: `[{$repeat: n, …}]` is `[]` and `{k: {$repeat: n, …}}` is `{}` -/
+theorem C08_repeat_negative_nested_alone (fuel : Nat) (docs : List Val) (root : Val) (ec : Vars)
+    (k : String) (m : Fields) (n : Int) (hr : fget m "$repeat" = some (.int n)) (hn : n ≤ 0) :
+    process2 (fuel + 1) docs root ec (.list [.map m]) = .ok (.list []) ∧
+    process2 (fuel + 1) docs root ec (.map [(k, .map m)]) = .ok (.map []) :=
+  ⟨(cy_process2_list_drop docs root ec m n hr hn (fuel + 1) [] []).trans
+      (cy_process2_list_nil fuel docs root ec),
+   (cy_process2_map_drop fuel docs root ec [] [] k m n hr hn).trans
+      (cy_process2_map_nil fuel docs root ec)⟩
+
+example : fget [("$repeat", Val.int (-2)), ("x", .int 1)] "$repeat" = some (.int (-2)) ∧
+    (-2 : Int) ≤ 0 := by decide
+
+/-- A count that is neither an integer nor a map of named counts is an error, at document level
+    `invalidRepeat` (`C12_nonint_error`) … -/
+theorem C08_repeat_nonint_is_error (docs : List Val) (env : Vars) (data : Val) (kvs : Fields)
+    (rt : Val) (v : Val)
+    (h1 : process1 depthLimit docs data (some []) data = .ok (.map kvs, rt))
+    (hr : fget kvs "$repeat" = some v) (hv1 : ∀ n, v ≠ .int n) (hv2 : ∀ rs, v ≠ .map rs) :
+    processDoc docs env data = .error .invalidRepeat ∧
+    outputDocument docs env data = .error .invalidRepeat := by
+  have h : processDoc docs env data = .error .invalidRepeat := by
+    unfold processDoc
+    rw [h1]
+    simp only [ok_bind, repeatDoc, hr, C12_nonint_error _ env v hv1 hv2]
+    rfl
+  exact ⟨h, by unfold outputDocument; rw [h]; rfl⟩
+
+/-- … and nested `invalidType` (`C12_nonint_error_nested`, `C12_nonint_error_map_nested`). -/
+theorem C08_repeat_nonint_nested_is_error (fuel : Nat) (docs : List Val) (root : Val) (ec : Vars)
+    (k : String) (m : Fields) (r : Val) (hr : fget m "$repeat" = some r) (hni : ∀ n, r ≠ .int n) :
+    process2 (fuel + 1) docs root ec (.list [.map m]) = .error .invalidType ∧
+    process2 (fuel + 1) docs root ec (.map [(k, .map m)]) = .error .invalidType :=
+  ⟨C12_nonint_error_nested fuel docs root ec m r hr hni,
+   C12_nonint_error_map_nested fuel docs root ec k m r hr hni⟩
+
+example : (∀ n, Val.flt "1.5" ≠ .int n) ∧ (∀ rs, Val.flt "1.5" ≠ .map rs) :=
+  ⟨fun _ h => (by cases h), fun _ h => (by cases h)⟩
+
+/-! ## 12. the evaluation is total, and every error it returns is one of 15 classes -/
+
+/-- `outputDocuments` is a total function of the stream and the environment: every invocation
+    denotes complete output (`.ok`) or a reported error, and a reported error is one of the 15
+    classes `cy_reported` (`circularRef`, `extraKeys`, `invalidArguments`, `invalidDirective`,
+    `invalidType`, `invalidRepeat`, `refNotFound`, `missingMatch`, `multiMatch`, `noMatchFound`,
+    `requiredField`, `unknownFormat`, `uselessOverride`, `variableNotFound`, and the model's own
+    `unmodelled`). -/
+theorem C08_evaluation_total_status (docs : List Val) (env : Vars) :
+    (∃ outs, outputDocuments docs env = .ok outs) ∨
+    (∃ e, outputDocuments docs env = .error e ∧ cy_reported e = true) := by
+  cases h : outputDocuments docs env with
+  | ok outs => exact Or.inl ⟨outs, rfl⟩
+  | error e => exact Or.inr ⟨e, rfl, (cy_rep_outputDocuments docs env).rep e h⟩
+
+/-- the finite list, explicitly -/
+theorem C08_error_is_reported (docs : List Val) (env : Vars) (e : Err)
+    (h : outputDocuments docs env = .error e) :
+    e ∈ [Err.circularRef, .extraKeys, .invalidArguments, .invalidDirective, .invalidType,
+      .invalidRepeat, .refNotFound, .missingMatch, .multiMatch, .noMatchFound, .requiredField,
+      .unknownFormat, .uselessOverride, .variableNotFound, .unmodelled] := by
+  have h' := (cy_rep_outputDocuments docs env).rep e h
+  revert h'
+  cases e <;> decide
+
+/-- the other 12 constructors — `marshal`, `unmarshal`, the file and command-line errors and
+    `other` — are never produced by `outputDocuments` -/
+theorem C08_never_produced (docs : List Val) (env : Vars) :
+    ∀ e ∈ [Err.conflictingParent, .extraEntries, .invalidIndex, .invalidFilename, .invalidParent,
+      .marshal, .missingEnv, .missingFile, .noCloneFound, .outputFile, .unmarshal, .other],
+      outputDocuments docs env ≠ .error e := by
+  intro e he h
+  have h' := (cy_rep_outputDocuments docs env).rep e h
+  revert he h'
+  cases e <;> decide
+
+/-- Per stage.  Phase 3 (`process1`, hence `get` and `merge`) returns only `circularRef`,
+    `extraKeys`, `invalidType`, `refNotFound`, `missingMatch`, `multiMatch`, `noMatchFound`,
+    `uselessOverride`, `unmodelled`; the output stage (`emit`: selection, hiding, validation)
+    only `extraKeys`, `requiredField`, `invalidDirective`; `repeatDoc`, `process2`, `processDoc`
+    and `outputDocument` stay within the 15 classes. -/
+theorem C08_error_classes_by_stage (fuel : Nat) (docs : List Val) (root : Val) (loc : Loc)
+    (ec : Vars) (v : Val) (vs : List Val) (e : Err) :
+    (process1 fuel docs root loc v = .error e → cy_p1Err e = true) ∧
+    (emit vs = .error e → cy_emitErr e = true) ∧
+    (repeatDoc v ec = .error e → cy_reported e = true) ∧
+    (process2 fuel docs root ec v = .error e → cy_reported e = true) ∧
+    (processDoc docs ec v = .error e → cy_reported e = true) ∧
+    (outputDocument docs ec v = .error e → cy_reported e = true) :=
+  ⟨(cy_rep_process1 fuel docs root loc v).rep e, (cy_rep_emit vs).rep e,
+   (cy_rep_repeatDoc v ec).rep e, (cy_rep_process2 fuel docs root ec v).rep e,
+   (cy_rep_processDoc docs ec v).rep e, (cy_rep_outputDocument docs ec v).rep e⟩
+
+/-- the classes, spelled out (so that the statements above do not depend on reading the lemma
+    file) -/
+theorem C08_error_classes_spec (e : Err) :
+    (cy_p1Err e = true ↔ e ∈ [Err.circularRef, .extraKeys, .invalidType, .refNotFound,
+      .missingMatch, .multiMatch, .noMatchFound, .uselessOverride, .unmodelled]) ∧
+    (cy_emitErr e = true ↔ e ∈ [Err.extraKeys, .requiredField, .invalidDirective]) ∧
+    (cy_reported e = true ↔ e ∈ [Err.circularRef, .extraKeys, .invalidArguments,
+      .invalidDirective, .invalidType, .invalidRepeat, .refNotFound, .missingMatch, .multiMatch,
+      .noMatchFound, .requiredField, .unknownFormat, .uselessOverride, .variableNotFound,
+      .unmodelled]) := by
+  cases e <;> decide
+
+/-- `unknownFormat` is NOT among the never-produced classes: `{$decode: xml, $value: "1"}` makes
+    the pipeline return it (so the list of 15 cannot be shortened by it) -/
+theorem C08_unknownFormat_is_produced (env : Vars) :
+    outputDocuments [.map [("$decode", .str "xml"), ("$value", .str "1")]] env =
+      .error .unknownFormat :=
+  cy_outputDocuments_single_error [] [] rfl (fun x hx => by cases hx)
+    (cy_unknownFormat_witness _ env)
 
 end Bkl
